@@ -57,6 +57,18 @@ def _esc(lines):
         if len(i.get("texts", [])) != len(o.get("texts", [])) or len(i.get("attrs", [])) != len(o.get("attrs", [])):
             return "rp:value-count-differs"
         return "rp:value-differs"
+    if e == "dlv":
+        w, c = last.get("w") or [], last.get("c") or []
+        if last.get("boundary"):
+            c = c[1:]
+        how = "pad%s+chunk%s" % (last.get("boundary"), last.get("chunk")) if last.get("boundary") else "chunk%s" % last.get("chunk")
+        if len(w) != len(c):
+            return "dlv:token-count-differs;%s" % how
+        for x, y in zip(w, c):
+            if x != y:
+                what = "type" if x.get("ty") != y.get("ty") else "data" if x.get("data") != y.get("data") else "attributes"
+                return "dlv:%s-%s-differs;%s" % (TT.get(x.get("ty"), "?"), what, how)
+        return "dlv:padding-token-differs;%s" % how
     return "esc:%s" % e
 
 
